@@ -215,6 +215,23 @@ Definition holds_C17 (pre : vt) (f : func) (post : vt) : bool :=
   | _ => ctx_eqb (sctx t) (sctx t') && ctx_eqb (asctx t) (asctx t') && btype_eqb (active t) (active t')
   end.
 
+(** C17 (separate contexts): switching screens / toggling DEC modes other than the two save-cursor ones keeps the saved
+    context of EACH screen (up to the clamp into the current size that a return to a resized primary performs) *)
+Definition no_save_modes (ms : list dec_mode) : bool :=
+  forallb (fun m => match m with SaveCursor | SaveCursorAltScreenBuffer => false | _ => true end) ms.
+
+Definition holds_C17_switch (pre : vt) (f : func) (post : vt) : bool :=
+  let t := vterm pre in
+  let t' := vterm post in
+  match f with
+  | Decset ms | Decrst ms =>
+    if no_save_modes ms then
+      forallb (fun s => ctx_eqb (clamp_ctx (saved_of t' s) (cols t') (rows t')) (clamp_ctx (saved_of t s) (cols t') (rows t')))
+              [Primary; Alternate]
+    else true
+  | _ => true
+  end.
+
 Definition holds_C17_resize (pre : vt) (post : vt) : bool :=
   let t := vterm pre in
   let t' := vterm post in
